@@ -10,6 +10,7 @@ from . import common as C
 
 PROPS = {
     'C01': 'vf.p_c01', 'C02': 'vf.p_c02', 'C06': 'vf.p_c06', 'C19': 'vf.p_c19',
+    'C04': 'vf.p_c04', 'C10': 'vf.p_c10', 'C11': 'vf.p_c11',
 }
 
 
